@@ -235,3 +235,233 @@ func mapLoopForeignKeys(w *World, fn *ssa.Function, lp rangeLoop) []string {
 	}
 	return bad
 }
+
+// C16/format-cli "the formatter is the only judge of the input": between the command line (or the C export) and
+// parser.FormatPacketDsl nothing else parses the input. A second verdict - the compiler's ParseFile in front of `format -f`, "to
+// report broken files the way compile does" - makes the entry point refuse (or decorate) texts the library function formats: the
+// model visitor knows diagnostics the formatter does not (duplicate names, undeclared references, option values).
+func c16FormatOnlyJudge(w *World, r *Report) {
+	const rule = "C16/format-cli"
+	target := w.Parser.Func("FormatPacketDsl")
+	if target == nil {
+		return
+	}
+	reachesParse := func(g *ssa.Function) bool {
+		for f := range w.reachable([]*ssa.Function{g}, func(f *ssa.Function) bool { return w.isRepoLike(f) }) {
+			if f.Name() == "Packet" && f.Signature.Recv() != nil && strings.Contains(f.Signature.Recv().Type().String(), "PacketDslParser") {
+				return true
+			}
+		}
+		return false
+	}
+	inCmd := func(f *ssa.Function) bool { return f != nil && pkgOfFunc(f) == w.Cmd && f.Blocks != nil }
+	for _, run := range w.findCmdFuncCalling(parserPath + ".FormatPacketDsl") {
+		// the entry point above run: the function stored in a cobra.Command, or the exported function itself
+		top := run
+		for depth := 0; depth < 4 && runFieldOf(w, top) == ""; depth++ {
+			var callers []*ssa.Function
+			for _, g := range w.srcFuncs {
+				if !inCmd(g) {
+					continue
+				}
+				forEachInstr(g, func(_ *ssa.BasicBlock, ins ssa.Instruction) {
+					if c, ok := ins.(ssa.CallInstruction); ok && c.Common().StaticCallee() == top {
+						callers = append(callers, g)
+					}
+				})
+			}
+			if len(callers) != 1 || callers[0] == top {
+				break
+			}
+			top = callers[0]
+		}
+		unit := map[*ssa.Function]bool{}
+		var order []*ssa.Function
+		var visit func(f *ssa.Function)
+		visit = func(f *ssa.Function) {
+			if unit[f] || !inCmd(f) {
+				return
+			}
+			unit[f] = true
+			order = append(order, f)
+			for _, a := range f.AnonFuncs {
+				visit(a)
+			}
+			forEachInstr(f, func(_ *ssa.BasicBlock, ins ssa.Instruction) {
+				if c, ok := ins.(ssa.CallInstruction); ok {
+					g := c.Common().StaticCallee()
+					if g == nil && !c.Common().IsInvoke() {
+						g = closureTarget(c.Common().Value, 0)
+					}
+					if g != nil {
+						visit(g)
+					}
+				}
+			})
+		}
+		visit(top)
+		var bad []string
+		n := 0
+		for _, f := range order {
+			forEachInstr(f, func(_ *ssa.BasicBlock, ins ssa.Instruction) {
+				c, ok := ins.(ssa.CallInstruction)
+				if !ok {
+					return
+				}
+				g := c.Common().StaticCallee()
+				if g == nil || g == target || !w.isSubjectFunc(g) || pkgOfFunc(g) == w.Cmd {
+					return
+				}
+				n++
+				if reachesParse(g) {
+					bad = append(bad, fmt.Sprintf("%s calls %s at %s", fnKey(f), fnKey(g), w.instrPos(ins)))
+				}
+			})
+		}
+		key := "the formatter is the only judge of the input (" + fnKey(top) + ")"
+		if len(bad) > 0 {
+			r.fail(rule, key, w.pos(top.Pos()), "on the way to FormatPacketDsl the input is parsed a second time by something else: the entry point can refuse (or report on) a text the library function formats - "+strings.Join(bad, "; "))
+		} else {
+			r.pass(rule, key, w.pos(top.Pos()), fmt.Sprintf("%d function(s) in the entry point's unit, %d call(s) into the library besides FormatPacketDsl, none parses", len(order), n))
+		}
+	}
+}
+
+// */field-text-independent-of-siblings (C01, C02, C03, C06): inside an emitter's loop over Packet.Fields, text made from the current
+// member (its type, its algorithm, its name) is not emitted under a boolean that an earlier iteration has set. A "declared already"
+// flag around `auto service = ...get<ByteBuf, T>("ALG")` emits the look-up of the first checksum member only; the second is
+// calculated with the first one's algorithm and width. Constant text under such a flag (separators) is the normal use and passes.
+func fieldTextIndependentOfSiblings(w *World, r *Report, prop string) {
+	rule := prop + "/field-text-independent-of-siblings"
+	n := 0
+	var fns []*ssa.Function
+	for _, fn := range w.srcFuncs {
+		if isGeneratorFunc(fn) && fn.Blocks != nil {
+			fns = append(fns, fn)
+		}
+	}
+	sort.Slice(fns, func(i, j int) bool { return fnKey(fns[i]) < fnKey(fns[j]) })
+	for _, fn := range fns {
+		for li, loop := range fieldLoops(fn) {
+			// the current member and everything made from it
+			taint := map[ssa.Value]bool{}
+			var work []ssa.Value
+			push := func(v ssa.Value) {
+				if v != nil && !taint[v] {
+					taint[v] = true
+					work = append(work, v)
+				}
+			}
+			forEachInstr(fn, func(b *ssa.BasicBlock, ins ssa.Instruction) {
+				ia, ok := ins.(*ssa.IndexAddr)
+				if !ok || !loop.blocks[b] {
+					return
+				}
+				if ld, ok := stripIdentity(ia.X).(*ssa.UnOp); ok {
+					if fa, ok := ld.X.(*ssa.FieldAddr); ok {
+						if tn, f, _, _ := fieldOf(fa); tn == "Packet" && f == "Fields" {
+							push(ia)
+						}
+					}
+				}
+			})
+			for len(work) > 0 {
+				v := work[len(work)-1]
+				work = work[:len(work)-1]
+				if v.Referrers() == nil {
+					continue
+				}
+				for _, ref := range *v.Referrers() {
+					if !loop.blocks[ref.Block()] {
+						continue
+					}
+					switch x := ref.(type) {
+					case *ssa.Store:
+						if x.Val == v {
+							push(valueRoot(x.Addr))
+							push(x.Addr)
+						}
+					case *ssa.If, *ssa.Return, *ssa.MapUpdate, *ssa.DebugRef:
+					case ssa.Value:
+						if ph, ok := x.(*ssa.Phi); ok && ph.Block() == loop.header {
+							continue
+						}
+						push(x)
+					}
+				}
+			}
+			for _, ins := range loop.header.Instrs {
+				phi, ok := ins.(*ssa.Phi)
+				if !ok {
+					break
+				}
+				if bt, ok := phi.Type().Underlying().(*types.Basic); !ok || bt.Kind() != types.Bool {
+					continue
+				}
+				carried := false
+				for i, e := range phi.Edges {
+					if loop.blocks[loop.header.Preds[i]] && e != ssa.Value(phi) {
+						carried = true
+					}
+				}
+				if !carried {
+					continue
+				}
+				n++
+				name := phi.Comment
+				if name == "" {
+					name = "a flag"
+				}
+				key := fmt.Sprintf("%s: field loop #%d emits nothing made from the current member under a flag set by an earlier member", fnKey(fn), li+1)
+				bad := ""
+				for _, b := range fn.Blocks {
+					if !loop.blocks[b] {
+						continue
+					}
+					cond := branchCond(b)
+					if cond == nil {
+						continue
+					}
+					c := cond
+					if u, ok := c.(*ssa.UnOp); ok && u.Op == token.NOT {
+						c = u.X
+					}
+					if c != ssa.Value(phi) {
+						continue
+					}
+					for s := 0; s < 2 && bad == ""; s++ {
+						for _, d := range fn.Blocks {
+							if !loop.blocks[d] || !edgeDominates(b, s, d) {
+								continue
+							}
+							for _, di := range d.Instrs {
+								call, ok := di.(*ssa.Call)
+								if !ok {
+									continue
+								}
+								emits := isStringType(call.Type())
+								if f := call.Call.StaticCallee(); f != nil && (builderWriters[f.String()] || fprintFuncs[f.String()]) {
+									emits = true
+								}
+								if !emits {
+									continue
+								}
+								for _, a := range call.Call.Args {
+									if taint[a] || taint[valueRoot(a)] {
+										bad = fmt.Sprintf("%s (carried around the loop at %s) decides at %s whether text made from the current member is emitted (%s at %s): what is emitted for a member depends on the members declared before it", name, w.instrPos(phi), w.instrPos(b.Instrs[len(b.Instrs)-1]), calleeName(call), w.instrPos(call))
+									}
+								}
+							}
+						}
+					}
+				}
+				if bad == "" {
+					r.pass(rule, key+" ("+name+")", w.instrPos(phi), "")
+				} else {
+					r.fail(rule, key+" ("+name+")", w.instrPos(phi), bad)
+				}
+			}
+		}
+	}
+	r.note("%s: %d loop-carried flags in loops over Packet.Fields", rule, n)
+}
